@@ -62,7 +62,7 @@ def conc_replay(ctx):
     rpc = vlib.compile_harness(vlib.VERIF + "/harness/limited_queue_conc_replay.cpp", "limited_queue_conc_replay",
                                extra_flags=["-rdynamic"], sanitize=False)
     threads = ["p1", "p2", "c1", "c2"]
-    deep = None if ctx.quick else {"Limits": "{1,2,3}", "ExtraPush": 3, "ExtraPop": 2}
+    deep = None if ctx.quick else {"ExtraPush": 3, "ExtraPop": 2}
     graph_replay(ctx, SPEC, SPEC, "LimitedQueue_conc_replay.cfg", "conc_replay", rpc, cproj,
                  header_fn=lambda k, st0: {"threads": threads, "limit": st0["limit"]}, must_take=ACTIONS,
                  max_paths=5000 if ctx.quick else None, extra_random=300 if ctx.quick else 3000,
@@ -101,7 +101,7 @@ def run(ctx):
                      header_fn=hdr, merge_re=MERGE, must_take=ACTIONS, constants=consts,
                      extra_random=200 if ctx.quick else 2000, tlc_kw={"workers": WORKERS})
 
-    # 2. all interleavings of 2 producer + 2 consumer threads at critical-section grain (design level)
+    # 2. all interleavings of 2 producer + 2 consumer threads at critical-section grain, limits 1..4 (TLC only)
     conc = None if ctx.quick else {"ExtraPop": 3, "MaxUnblockPush": 2}
     cfg = os.path.join(sd, "LimitedQueue_conc.cfg")
     if conc:
@@ -126,11 +126,13 @@ def run(ctx):
         raise vlib.MachineryError("LimitedQueue properties accept the pre-fix model (Fixed = FALSE): vacuous")
     ctx.extra["prefix_model_rejected_by"] = r.violation
 
-    ctx.assume("interleavings of producer/consumer threads are decided on the specification at critical-section grain "
-               "(2 producers + 2 consumers, TLC only); the implementation is bound to that grain by single-threaded "
-               "replays of every specification edge, with instrumented containers/lock (the library's Queue/Lock "
-               "template parameters) reporting any access to queue state outside the lock and any coroutine resumed "
-               "under it; no real-thread schedule is executed for this property")
+    ctx.assume("interleavings of 2 producer + 2 consumer threads are decided on the specification at critical-section "
+               "grain; the implementation is bound to that grain (a) by single-threaded replays of every edge with "
+               "instrumented containers/lock (the library's Queue/Lock template parameters) reporting any access to "
+               "queue state outside the lock and any coroutine resumed under it, and (b) by replaying the interleavings of "
+               "a smaller 2+2 thread configuration (limits 1..2) on real threads with the queue's mutex virtualised: one "
+               "scheduled step per critical section and per post-unlock resolution; the large concurrent model "
+               "(limits 1..4) is TLC only")
     ctx.assume("item types int and an instance-counting class; limits 1..4; limit 0 (no push can ever complete) excluded; "
                "limited_queue<void> does not instantiate (std::pair<void,...>) and is not covered")
     ctx.assume("futures are abstracted to pending|value|exception|canceled with a single resolver each "
